@@ -313,6 +313,8 @@ class MHLHistory:
         """traverses the whole file system tree inside the history to find all sub histories"""
         history_root = self.get_root_path()
         for root, directories, _ in os.walk(history_root):
+            # visit the sub folders in a defined order so the result doesn't depend on the order the os lists them
+            directories.sort()
             if root != history_root and ascmhl_folder_name in directories:
                 # we parse the mhl folder and clear the directories so we are not going deeper
                 # everything beneath is handled by the child history
